@@ -190,6 +190,9 @@ fn mutate(rng: &mut Rng, text: &str) -> (String, &'static str) {
     let hostile_tokens = [
         "0", "-1", "18446744073709551616", "18446744073709551615", "4294967296", "x", "1.5", "+3", "1e3", "",
         "９", "0x10", "2000",
+        // long tokens with multi-byte characters at every offset around typical truncation lengths
+        "123456789012345é6789", "12345678901234€56789", "1234567é", "123é5678", "éééééééééééééééééééé", "1234567890123456789012345678901€",
+        "abcdefghijklmnopqrstuvwxyzabcdefghijklmnopqrstuvwxyzabcdefghijklmn\u{1F600}", "12345678901234567890123456789012345678901234567890123456789012345",
     ];
     let kind = rng.below(13);
     let name;
@@ -217,7 +220,7 @@ fn mutate(rng: &mut Rng, text: &str) -> (String, &'static str) {
             let i = pick_line(rng, &lines);
             if !lines[i].is_empty() {
                 let j = rng.below(lines[i].len());
-                lines[i][j] = rng.pick(&hostile_tokens).to_string();
+                lines[i][j] = if rng.chance(0.3) { long_multibyte_token(rng) } else { rng.pick(&hostile_tokens).to_string() };
             }
         }
         3 => {
@@ -293,6 +296,22 @@ fn mutate(rng: &mut Rng, text: &str) -> (String, &'static str) {
     }
     let t: String = lines.iter().map(|l| l.join(" ") + "\n").collect();
     (t, name)
+}
+
+/// a token of random length (1..80 bytes) made of digits with a multi-byte character at a random offset
+fn long_multibyte_token(rng: &mut Rng) -> String {
+    let len = rng.range(1, 70);
+    let at = rng.below(len);
+    let mb = *rng.pick(&["é", "€", "\u{1F600}", "ß", "９"]);
+    let mut t = String::new();
+    for i in 0..len {
+        if i == at {
+            t.push_str(mb);
+        } else {
+            t.push((b'0' + (i % 10) as u8) as char);
+        }
+    }
+    t
 }
 
 fn soup(rng: &mut Rng) -> String {
@@ -380,7 +399,7 @@ fn check_parser_total(l: &mut crate::ctx::Local, text: &str, class: &str) {
 }
 
 pub fn run(run: &mut Run) {
-    run.rule = "matrices 1x1..30x40 in six density classes (all-zero, sparse, half, full, forced empty row+column, irregular) written in both alist forms, checked against a strict grammar and re-parsed; parser inputs: writer output, 13 kinds of mutated valid alists, token soups, declared dimensions <= 2000; non-trivial = string whose header parsed (reaches the column section) / matrix with a non-empty entry set or an empty line; distinct by string digest".into();
+    run.rule = "matrices 1x1..30x40 in six density classes (all-zero, sparse, half, full, forced empty row+column, irregular) written in both alist forms, checked against a strict grammar and re-parsed; parser inputs: writer output, 13 kinds of mutated valid alists (incl. long tokens with multi-byte characters at every offset), token soups, declared dimensions <= 2000; non-trivial = string whose header parsed (reaches the column section) / matrix with a non-empty entry set or an empty line; distinct by string digest".into();
     run.assumptions = vec![
         "declared dimensions above 2000 are skipped (a huge header legitimately allocates)".into(),
         "the strict grammar (header, max-weight line, weight lines, sorted 1-based lists, zero padding to the maximum in padded form) is the harness author's reading of MacKay's alist format".into(),
